@@ -1,4 +1,4 @@
-import BV.Lemmas.StreamRunClosed
+import BV.Lemmas.StreamRing2
 /-
 Whole histories: `run` over a list of calls has a LOG (list of events) that determines the
 delivered bit stream, the positions and the request list.
@@ -37,7 +37,7 @@ theorem logPos_ip_le (p : Pos) (log : List Ev) : (logPos p log).ip ≤ p.ip + lo
 /-- `take_output` on the emitted stream, the positions and the invariants -/
 theorem take_facts {s s' : St} {size : Nat} {out : Bytes} (hR : RunOK s) (h : takeOutput s size = .ok (s', out)) (d : Bytes) :
     RunOK s' ∧ emitted (d ++ out) s' = emitted d s ∧ s'.pos = s.pos ∧ s'.isInitialized = s.isInitialized
-    ∧ s'.params = s.params := by
+    ∧ s'.params = s.params ∧ s'.ring = s.ring := by
   rcases hR.inv with hf | hI
   · obtain ⟨_, hp, _, hno, _⟩ := isFresh_fields hf
     have : takeOutput s size = .ok (s, []) := by
@@ -47,9 +47,9 @@ theorem take_facts {s s' : St} {size : Nat} {out : Bytes} (hR : RunOK s) (h : ta
     rw [this] at h
     simp only [Out.ok.injEq, Prod.mk.injEq] at h
     obtain ⟨rfl, rfl⟩ := h
-    exact ⟨hR, by rw [List.append_nil], rfl, rfl, rfl⟩
+    exact ⟨hR, by rw [List.append_nil], rfl, rfl, rfl, rfl⟩
   · obtain ⟨hI', hp, _, hst⟩ := takeOutput_spec hI h
-    have hlb : s'.lastBytes = s.lastBytes ∧ s'.lastBytesBits = s.lastBytesBits ∧ s'.pos = s.pos ∧ s'.params = s.params := by
+    have hlb : s'.lastBytes = s.lastBytes ∧ s'.lastBytesBits = s.lastBytesBits ∧ s'.pos = s.pos ∧ s'.params = s.params ∧ s'.ring = s.ring := by
       unfold takeOutput at h
       split at h
       · simp at h
@@ -57,14 +57,16 @@ theorem take_facts {s s' : St} {size : Nat} {out : Bytes} (hR : RunOK s) (h : ta
         · simp only [Out.ok.injEq, Prod.mk.injEq] at h
           obtain ⟨rfl, _⟩ := h
           obtain ⟨k1, _, _, _, _, _, _, _, k9, k10, _⟩ := checkFlushComplete_frame (takeAdvance s (takeCount s size))
-          exact ⟨k9, k10, by rw [checkFlushComplete_pos]; rfl, k1⟩
+          have hcr : (checkFlushComplete (takeAdvance s (takeCount s size))).ring = (takeAdvance s (takeCount s size)).ring := by
+            unfold checkFlushComplete; split <;> rfl
+          exact ⟨k9, k10, by rw [checkFlushComplete_pos]; rfl, k1, hcr⟩
         · simp only [Out.ok.injEq, Prod.mk.injEq] at h
           obtain ⟨rfl, _⟩ := h
-          exact ⟨rfl, rfl, rfl, rfl⟩
+          exact ⟨rfl, rfl, rfl, rfl, rfl⟩
     have hpos := hlb.2.2.1
     have hip : s'.inputPos = s.inputPos := congrArg Pos.ip hpos
     have hlf : s'.lastFlushPos = s.lastFlushPos := congrArg Pos.lf hpos
-    refine ⟨⟨Or.inr hI', ⟨carryOK_eq hR.frame.carry hlb.1 hlb.2.1, ?_⟩⟩, ?_, hpos, by rw [hI'.init, hI.init], hlb.2.2.2⟩
+    refine ⟨⟨Or.inr hI', ⟨carryOK_eq hR.frame.carry hlb.1 hlb.2.1, ?_⟩⟩, ?_, hpos, by rw [hI'.init, hI.init], hlb.2.2.2.1, hlb.2.2.2.2⟩
     · intro hb
       rcases hst with h1 | ⟨_, _, h1⟩
       · rw [hlb.2.1, hip, hlf]; exact hR.frame.body (h1 ▸ hb)
@@ -99,6 +101,14 @@ theorem winShape_trans {s0 s1 s2 : St} {l1 l2 : List Ev} (h1 : WinShape s0 s1 l1
     · rw [a2] at b1; cases b1
     · exact Or.inr (Or.inr ⟨a1, b2, noWindow_append a3 b3⟩)
 
+/-- the ring buffer of an encoder in a history: untouched while fresh, else holding `inp` -/
+def RingSt (s : St) (inp : Bytes) : Prop := (IsFresh s ∧ inp = []) ∨ RingInv s inp
+
+theorem logCopy_append (a b : List Ev) : logCopy (a ++ b) = logCopy a ++ logCopy b := by
+  induction a with
+  | nil => rfl
+  | cons e es ih => rw [List.cons_append, logCopy_cons, logCopy_cons, ih, List.append_assoc]
+
 /-- everything the log of a history says -/
 structure RunFacts (o : Oracle) (s0 : St) (t0 : Trace) (s : St) (t : Trace) (log : List Ev) : Prop where
   ok : RunOK s
@@ -110,6 +120,7 @@ structure RunFacts (o : Oracle) (s0 : St) (t0 : Trace) (s : St) (t : Trace) (log
   q : s0.isInitialized = true → s.q01 = s0.q01
   cl : LogCl o s.q01 s0.pos log
   closed : t.closed = t0.closed ++ closedFlags o s.q01 s0.nEnc (logReqs log)
+  ring : ∀ inp, RingSt s0 inp → RingSt s (inp ++ logCopy log)
 
 theorem logPos_k' (p : Pos) (log : List Ev) : (logPos p log).k = p.k + (logReqs log).length := by
   induction log generalizing p with
@@ -120,7 +131,8 @@ theorem logPos_k' (p : Pos) (log : List Ev) : (logPos p log).k = p.k + (logReqs 
     cases e <;> simp [Ev.step, logReqs, Ev.req, List.filterMap_cons] <;> omega
 
 theorem RunFacts.refl (o : Oracle) {s : St} (t : Trace) (h : RunOK s) : RunFacts o s t s t [] :=
-  ⟨h, by simp [logBits], rfl, trivial, by simp [logReqs], winShape_nil rfl, fun _ => rfl, trivial, by simp [logReqs, closedFlags]⟩
+  ⟨h, by simp [logBits], rfl, trivial, by simp [logReqs], winShape_nil rfl, fun _ => rfl, trivial, by simp [logReqs, closedFlags],
+    fun inp hh => by simpa [logCopy] using hh⟩
 
 theorem RunFacts.trans {o : Oracle} {s0 s1 s2 : St} {t0 t1 t2 : Trace} {l1 l2 : List Ev}
     (h1 : RunFacts o s0 t0 s1 t1 l1) (h2 : RunFacts o s1 t1 s2 t2 l2) : RunFacts o s0 t0 s2 t2 (l1 ++ l2) := by
@@ -137,7 +149,8 @@ theorem RunFacts.trans {o : Oracle} {s0 s1 s2 : St} {t0 t1 t2 : Trace} {l1 l2 : 
     have := congrArg Pos.k h1.pos
     rw [logPos_k'] at this
     exact this
-  refine ⟨h2.ok, ?_, ?_, ?_, ?_, winShape_trans h1.win h2.win, ?_, ?_, ?_⟩
+  refine ⟨h2.ok, ?_, ?_, ?_, ?_, winShape_trans h1.win h2.win, ?_, ?_, ?_,
+    fun inp hh => by rw [logCopy_append, ← List.append_assoc]; exact h2.ring _ (h1.ring _ hh)⟩
   rotate_left 4
   · intro hi0
     have hi1 : s1.isInitialized = true := by
@@ -179,7 +192,11 @@ theorem runCall_facts {o : Oracle} {fuel : Nat} {s s' : St} {t t' : Trace} {c : 
       obtain ⟨_, hp', hip', _, hl'⟩ := isFresh_fields hf'
       refine ⟨by rw [hip', hip]; exact Nat.zero_le _, [], runOK_fresh hf', ?_, ?_, trivial, by simp [logReqs],
         winShape_nil (by rw [isFreshInit hf, isFreshInit hf']), (fun hi => by rw [isFreshInit hf] at hi; cases hi), trivial,
-        by simp [logReqs, closedFlags]⟩
+        by simp [logReqs, closedFlags], fun inp hh => by
+          simp only [logCopy, List.append_nil]
+          rcases hh with ⟨_, hi⟩ | hi
+          · exact Or.inl ⟨hf', hi⟩
+          · have := hi.init; rw [isFreshInit hf] at this; cases this⟩
       · simp only [deliveredBits, logBits, List.flatMap_nil, List.append_nil]
         rw [hp, hp']
         unfold St.carry
@@ -191,17 +208,32 @@ theorem runCall_facts {o : Oracle} {fuel : Nat} {s s' : St} {t t' : Trace} {c : 
     · have : setParameter s id v = (s, false) := by simp [setParameter, hI.init]
       rw [this]
       exact ⟨Nat.le_add_right _ _, [], hR, by simp [deliveredBits, logBits], rfl, trivial, by simp [logReqs], winShape_nil rfl,
-        (fun _ => rfl), trivial, by simp [logReqs, closedFlags]⟩
+        (fun _ => rfl), trivial, by simp [logReqs, closedFlags], fun inp hh => by simpa [logCopy] using hh⟩
   | take size =>
     simp only [runCall] at h
     split at h
     · rename_i s1 out htake
       simp only [Out.ok.injEq, Prod.mk.injEq] at h
       obtain ⟨rfl, rfl⟩ := h
-      obtain ⟨hR', hb, hp, hini, hpar⟩ := take_facts hR htake t.delivered
+      obtain ⟨hR', hb, hp, hini, hpar, hring⟩ := take_facts hR htake t.delivered
       have hipe : s1.inputPos = s.inputPos := congrArg Pos.ip hp
       refine ⟨by rw [hipe]; exact Nat.le_add_right _ _, [], hR', ?_, hp, trivial, by simp [logReqs], winShape_nil hini,
-        (fun _ => by unfold St.q01; rw [hpar]), trivial, by simp [logReqs, closedFlags]⟩
+        (fun _ => by unfold St.q01; rw [hpar]), trivial, by simp [logReqs, closedFlags], fun inp hh => by
+          simp only [logCopy, List.append_nil]
+          rcases hh with ⟨hf, hi⟩ | hi
+          · left
+            have hs1 : s1 = s := by
+              obtain ⟨_, hp0, _, hno, _⟩ := isFresh_fields hf
+              have : takeOutput s size = .ok (s, []) := by
+                unfold takeOutput takeSliceOk takeCount
+                rw [hno, hp0]
+                simp
+              rw [this] at htake
+              simp only [Out.ok.injEq, Prod.mk.injEq] at htake
+              exact htake.1.symm
+            rw [hs1]; exact ⟨hf, hi⟩
+          · right
+            exact ringInv_of_eq hi hring (by rw [hpar]) hini⟩
       simp only [deliveredBits, logBits, List.flatMap_nil, List.append_nil]
       exact hb
     · simp at h
@@ -219,25 +251,32 @@ theorem runCall_facts {o : Oracle} {fuel : Nat} {s s' : St} {t t' : Trace} {c : 
           ∃ log, RunOK s1 ∧ emitted (t.delivered ++ io.out) s1 = emitted t.delivered si ++ logBits o log
             ∧ s1.pos = logPos si.pos log ∧ LogOK si.pos log ∧ io.reqs = logReqs log
             ∧ s1.inputPos ≤ si.inputPos + chunk.length ∧ NoWindow log ∧ s1.isInitialized = true
-            ∧ s1.q01 = si.q01 ∧ LogCl o si.q01 si.pos log := by
+            ∧ s1.q01 = si.q01 ∧ LogCl o si.q01 si.pos log
+            ∧ (∀ inp, RingInv si inp → RingInv s1 (inp ++ logCopy log)) := by
         intro si hI hF hw' hcs'
         cases r
         · obtain ⟨hs, hio⟩ := refused_unchanged hop hI hw' hcs'
           subst hio
           rcases hs with rfl | rfl
           · exact ⟨[], ⟨Or.inr hI, hF⟩, by simp [logBits, Io.start], rfl, trivial, by simp [logReqs, Io.start], Nat.le_add_right _ _,
-              (fun _ he => by cases he), hI.init, rfl, trivial⟩
+              (fun _ he => by cases he), hI.init, rfl, trivial, fun inp hh => by simpa [logCopy] using hh⟩
           · obtain ⟨_, _, _, _, _, u6, _, _, u9, u10, _, _, u13, u14, u15⟩ := updateSizeHint_fields si 0
             refine ⟨[], ⟨Or.inr (inv_updateSizeHint hI 0), frameInv_of_eq hF u15 u14 u9 u6 u10⟩, ?_,
               by rw [updateSizeHint_pos]; rfl, trivial, by simp [logReqs, Io.start], by rw [u6]; exact Nat.le_add_right _ _,
-              (fun _ he => by cases he), (inv_updateSizeHint hI 0).init, q01_congr (updateSizeHint_fields si 0).2.1, trivial⟩
+              (fun _ he => by cases he), (inv_updateSizeHint hI 0).init, q01_congr (updateSizeHint_fields si 0).2.1, trivial,
+              fun inp hh => by
+                simp only [logCopy, List.append_nil]
+                have hur : (updateSizeHint si 0).ring = si.ring := by
+                  by_cases h0 : si.params.sizeHint = 0 <;> simp [updateSizeHint, h0]
+                exact ringInv_of_eq hh hur (updateSizeHint_fields si 0).1 (updateSizeHint_fields si 0).2.2.2.2.2.2.2.1⟩
             simp only [logBits, List.flatMap_nil, List.append_nil, Io.start]
             exact emitted_eq rfl u13 u15 u14
         · obtain ⟨log, hsteps⟩ := call_steps hop hI hw' hcs'
           have f := steps_facts hsteps hF t.delivered
           have hI1 := ((compressStream_refines hop hI hw' hcs').2 rfl).1
           obtain ⟨cq, ccl⟩ := steps_cl (o := o) hsteps hI.init
-          refine ⟨log, ⟨Or.inr hI1, f.frame⟩, ?_, f.pos, f.ok, ?_, ?_, (f.initd hI.init).2, hI1.init, cq, ccl⟩
+          refine ⟨log, ⟨Or.inr hI1, f.frame⟩, ?_, f.pos, f.ok, ?_, ?_, (f.initd hI.init).2, hI1.init, cq, ccl,
+            fun inp hh => steps_ring hsteps hh⟩
           rotate_left 2
           · have h1 := logPos_ip_le si.pos log
             have h2 := f.used
@@ -261,13 +300,23 @@ theorem runCall_facts {o : Oracle} {fuel : Nat} {s s' : St} {t t' : Trace} {c : 
         have hipe : (ensureInitialized s).inputPos = 0 := by
           obtain ⟨p, rfl⟩ := hf
           simp [ensureInitialized, St.new]
-        obtain ⟨log, k1, k2, k3, k4, k5, k6, k7, k8, k9, k10⟩ := key (ensureInitialized s) hIe hFe (by rw [hipe]; rw [hip] at hw; exact hw) hcs
+        obtain ⟨log, k1, k2, k3, k4, k5, k6, k7, k8, k9, k10, k11⟩ := key (ensureInitialized s) hIe hFe (by rw [hipe]; rw [hip] at hw; exact hw) hcs
         have hinit : Step o op (s, Io.start chunk cap) (.window (ensureInitialized s).carry) (ensureInitialized s, Io.start chunk cap) :=
           Step.init hf
         have hb0 := step_emitted hR.frame hinit t.delivered
         obtain ⟨q1, q2, _⟩ := step_pos hinit
         refine ⟨by rw [hipe] at k6; rw [hip]; exact k6, .window (ensureInitialized s).carry :: log, k1, ?_, ?_, ⟨q2, by rw [← q1]; exact k4⟩, ?_,
-          Or.inr (Or.inl ⟨hini, k8, _, _, rfl, k7⟩), (fun hi => by rw [hini] at hi; cases hi), ⟨trivial, ?_⟩, ?_⟩
+          Or.inr (Or.inl ⟨hini, k8, _, _, rfl, k7⟩), (fun hi => by rw [hini] at hi; cases hi), ⟨trivial, ?_⟩, ?_,
+          fun inp hh => by
+            rw [logCopy_cons]
+            simp only [Ev.copied, List.nil_append]
+            rcases hh with ⟨_, hi⟩ | hi
+            · subst hi
+              right
+              obtain ⟨r1, r2⟩ := ring_ok_fresh hf
+              have := k11 [] ⟨hIe.init, r1, r2⟩
+              simpa using this
+            · have := hi.init; rw [hini] at this; cases this⟩
         rotate_left 3
         · rw [← q1, k9]; exact k10
         · have hk : (ensureInitialized s).nEnc = s.nEnc := by
@@ -286,8 +335,13 @@ theorem runCall_facts {o : Oracle} {fuel : Nat} {s s' : St} {t t' : Trace} {c : 
         · simp only [Trace.afterStream]
           rw [k5]
           simp [logReqs, Ev.req, List.filterMap_cons]
-      · obtain ⟨log, k1, k2, k3, k4, k5, k6, k7, k8, k9, k10⟩ := key s hI hR.frame hw hcs
-        refine ⟨k6, log, k1, ?_, k3, k4, ?_, Or.inr (Or.inr ⟨hI.init, k8, k7⟩), (fun _ => k9), by rw [k9]; exact k10, ?_⟩
+      · obtain ⟨log, k1, k2, k3, k4, k5, k6, k7, k8, k9, k10, k11⟩ := key s hI hR.frame hw hcs
+        refine ⟨k6, log, k1, ?_, k3, k4, ?_, Or.inr (Or.inr ⟨hI.init, k8, k7⟩), (fun _ => k9), by rw [k9]; exact k10, ?_,
+          fun inp hh => by
+            right
+            rcases hh with ⟨hf, _⟩ | hi
+            · have := isFreshInit hf; rw [hI.init] at this; cases this
+            · exact k11 inp hi⟩
         rotate_left 2
         · simp only [Trace.afterStream]
           rw [ensureInitialized_id hI.init, k5, k9]
